@@ -556,16 +556,24 @@ def playback(spec, res, work):
         # collect the printed unit tests for failing checks (not the ones for satisfied covers)
         tests = []
         gen_src = ""
+        def norm(t):
+            return re.sub(r"[^A-Za-z0-9]+", "", t)[:60]
+
+        wanted = {norm(f["description"]) for f in res.failed}
         for m in re.finditer(r"```\n(.*?)```", out, re.S):
             block = m.group(1)
-            chk = re.search(r"/// Check for `(\w+)`: (.*)", block)
-            if chk and chk.group(1) == "cover" and "UNSAT:" not in chk.group(2):
+            chk = re.search(r"/// Check for `(\w+)`: (.*?)\n\s*#\[test\]", block, re.S)
+            if chk and chk.group(1) == "cover":
+                continue
+            if chk and wanted and norm(chk.group(2)) not in wanted and not any(w and w in norm(chk.group(2)) for w in wanted):
+                # a check that is expected to fail in this harness (e.g. the documented panic)
                 continue
             nm = re.search(r"fn (kani_concrete_playback_\w+)\s*\(", block)
             if not nm:
                 continue
             tests.append(nm.group(1))
-            gen_src += block + "\n"
+            body = block[block.index("#[test]"):] if "#[test]" in block else block
+            gen_src += body + "\n"
         if tests:
             mod = spec.name.split("::")[0]
             modfile = os.path.join(pb_crate, "src", mod + ".rs")
